@@ -21,12 +21,15 @@ import numpy as np
 from vlib import core
 from harness import mps_common as mc
 from harness import mps_extra as mx
+from harness import c07_ext as cx
 
 sys.path.insert(0, str(core.ROOT / 'tools'))
 
 PROP = 'C07'
-MODEL_MODULES = ['TenpyModel.Util.J', 'TenpyModel.MPS.Eval']
-PROPS_MODULES = ['TenpyModel.C07.Props', 'TenpyModel.C07.Props2']
+MODEL_MODULES = ['TenpyModel.Util.J', 'TenpyModel.MPS.Eval', 'TenpyModel.C07.ExtCover', 'TenpyModel.C07.ExtCharge',
+                 'TenpyModel.C07.ExtGlue']
+PROPS_MODULES = ['TenpyModel.C07.Props', 'TenpyModel.C07.Props2', 'TenpyModel.C07.PropsExtCover',
+                 'TenpyModel.C07.PropsExtCharge', 'TenpyModel.C07.PropsExtGlue']
 LEVEL = 'proof'
 BUDGET = {'quick': 200, 'thorough': 1500}
 RULE = ('states by every constructor (from_product_state with labels/ints/local vectors and permute on/off, from_full on '
@@ -137,6 +140,8 @@ def forms_arg(names):
 def eval_case(case):
     if case['kind'] == 'extra':
         return mx.eval_c07(case)
+    if case['kind'] == 'ext':
+        return cx.eval_ext(case)
     kind = case['kind']
     if kind == 'inf':
         return eval_inf(case)
@@ -639,12 +644,20 @@ def run(ctx):
         res.fail('correspondence', 'C07.driver.selfcheck', p, {})
     rng = ctx.sub_rng('cases')
     n = 220 if ctx.quick else 6000
-    cases = corpus_cases() + gen_cases(rng, n, ctx.quick)
+    corpus = corpus_cases()
+    cases = [c for c in corpus if c.get('kind') != 'ext'] + gen_cases(rng, n, ctx.quick)
     xr = ctx.sub_rng('extra')
     cases += mx.gen_extras(xr, mx.C07_SUBS, 60 if ctx.quick else 900)
     results, derrs = mc.run_cases(ctx, PROP, 'harness.C07', 'eval_case', cases,
-                                  budget_s=ctx.budget_s * 0.8 if not ctx.quick else None)
-    return mc.fold_results(res, results, derrs, PROP, shrink=shrink)
+                                  budget_s=ctx.budget_s * 0.7 if not ctx.quick else None)
+    # extension round: newly modelled code (covering assembly, charge bookkeeping, argument handling) through its
+    # own driver (drivers/C07ext.lean; drivers/C07.lean is shared with C08/C09)
+    er = ctx.sub_rng('ext')
+    ecases = [c for c in corpus if c.get('kind') == 'ext'] + cx.gen_ext(er, 400 if ctx.quick else 12000)
+    eres, ederrs = mc.run_cases(ctx, PROP, 'harness.c07_ext', 'eval_ext', ecases, driver='C07ext',
+                                budget_s=ctx.budget_s * 0.15 if not ctx.quick else None)
+    res.extra['ext_cases'] = len([r for r in eres if not r['skip']])
+    return mc.fold_results(res, results + eres, derrs + ederrs, PROP, shrink=shrink)
 
 
 def search(ctx, reasons):
@@ -652,6 +665,7 @@ def search(ctx, reasons):
     res = core.Result()
     rng = ctx.sub_rng('search')
     cases = corpus_cases() + gen_cases(rng, 300 if ctx.quick else 4000, ctx.quick)
+    cases += cx.gen_ext(ctx.sub_rng('ext-search'), 300 if ctx.quick else 4000)
     results, _ = mc.run_cases(ctx, PROP, 'harness.C07', 'eval_oracle_only', cases)
     for r in results:
         if r['skip']:
@@ -674,5 +688,8 @@ def replay(ctx, payload):
     case = payload.get('case') or {}
     if not case:
         return run(ctx)
-    results, derrs = mc.run_cases(ctx, PROP, 'harness.C07', 'eval_case', [case], procs=1)
+    if case.get('kind') == 'ext':
+        results, derrs = mc.run_cases(ctx, PROP, 'harness.c07_ext', 'eval_ext', [case], driver='C07ext', procs=1)
+    else:
+        results, derrs = mc.run_cases(ctx, PROP, 'harness.C07', 'eval_case', [case], procs=1)
     return mc.fold_results(res, results, derrs, PROP)
